@@ -81,8 +81,8 @@ def assignRules (h : List Ev) (name : String) (vs : List (Variant String)) (impl
     else [("value_of_another_type_is_rejected", !implOk impl)]
 
 def handle (st : DState) (op : String) (args impl : List String) : Option (DState × Out) :=
-  let pv := st.pv
-  let upd (m : SecSt String String) (h : List Ev) : DState := { st with pv := { model := m, hist := h, opened := true } }
+  let pv := st.dp.pv
+  let upd (m : SecSt String String) (h : List Ev) : DState := { st with dp := { st.dp with pv := { model := m, hist := h, opened := true } } }
   -- run a model op, record the event when the IMPLEMENTATION accepted the call, compare, judge
   let exec (tag : String) (mop : Op String String) (ev : Option Ev) (rules : List (String × Bool)) (okToks : List String := []) : DState × Out :=
     let r := step zeroTok pv.model mop
@@ -91,7 +91,7 @@ def handle (st : DState) (op : String) (args impl : List String) : Option (DStat
     (upd r.1 h, judge tag' (errOut r.2 okToks) impl rules)
   if op.startsWith "pv_" && op != "pv_open" && !pv.opened then some (st, .malformed (op ++ " before pv_open")) else
   match op with
-  | "pv_open" => some ({ st with pv := { opened := true } }, cmp "pv_open" ["ok"] impl)
+  | "pv_open" => some ({ st with dp := { st.dp with pv := { opened := true } } }, cmp "pv_open" ["ok"] impl)
   | "pv_mkd" => some <|
     match args with
     | [name, dt] =>
